@@ -7,7 +7,7 @@ test and open(), the query string is cut off before the path is formed, the stat
 fallback is reached only when no route matched, read failures are answered 404.
 Not decided: symlink policy, byte identity of the served content."""
 import ast
-from typing import List, Optional, Tuple
+from typing import Dict, List, Optional, Tuple
 
 from ..cfg import cfg_of, Path
 from ..flow import Sym, find_calls, strip_wrappers, fpaths, allfacts
@@ -90,6 +90,10 @@ def run(ch: Checker) -> None:
     ch.rule('C13.6', 'who may declare a content coding for a static response: only okResponse, when it compresses the body itself; serve_static_file hands it a header map without '
                      'Content-Encoding (a coding guessed from the file NAME describes the file, not a transformation the client may undo to get the file back)', 1)
     ch.rule('C13.7', 'served bytes are the file\'s current bytes: serve_static_file does not obtain content (or headers) from a memoised (lru_cache / cache) function', 1)
+    ch.rule('C13.8', 'who may call the file-serving sink with a path that depends on the request: only the static handler whose containment discipline C13.1 decides; any other caller passes a fixed file of the distribution '
+                     '(a route plugin serving "its own" assets by request path opens whatever that path names)', 2)
+    ch.rule('C13.9', 'dot-segments of the request path are resolved together with the root, never on their own: no normpath/abspath/realpath/resolve is applied to the request path before it is joined to the root '
+                     '(resolved alone, "/../x" collapses to "/x" and the containment test can no longer see that the request left the root)', 1)
     ch.rule('C13.4', 'serve_static_file: open/read inside a try whose OSError handler returns NOT_FOUND_RESPONSE_PKT', 1)
 
     web = prog.class_named('HttpWebServerPlugin')
@@ -149,12 +153,53 @@ def run(ch: Checker) -> None:
             else:
                 ch.bad('C13.1', f, call, 'no accepted containment test of the normalised candidate against the normalised root dominates the sink '
                                          '(facts on the path: %s)' % '; '.join('%s=%s' % x for x in list(allfacts(p).items()))[:200], witness=wit)
+            # C13.9 no normalisation of the request path on its own
+            pre = [norm(x)[:70] for x in ast.walk(cand_ast) if _is_normaliser_call(x) and _mentions(x, src) and not _mentions_attr(x, 'static_server_dir')]
+            ch.check(not pre, 'C13.9', f, call, 'the request path is normalised only together with the root',
+                     'the request path is normalised on its own (%s) before it is joined to the root: a path that climbs out of the root is folded back to a name inside it, is served with 200, '
+                     'and the containment test never sees the escape' % pre[:2], witness=wit)
             # C13.2 query stripping: every occurrence of the source inside the candidate sits under split('?')[0]
             ok_q = _query_stripped(cand_ast, src)
             ch.check(ok_q, 'C13.2', f, call, 'request path enters the candidate only through split("?")[0]',
                      'the candidate path uses the request path without cutting the query string: %s' % cand[:140], witness=wit)
     if sink_paths == 0:
         ch.undecided('C13.1', f, 'def', 'no path of the static handler reaches a file-serving sink')
+
+    # C13.8 who may call the sink (with a path that depends on the request)
+    n8 = 0
+    for fn in prog.all_functions('proxy', include_inlined=True):
+        if fn.module.name.startswith('proxy.testing'):
+            continue
+        sites8 = [c_ for c_ in walk_no_nested(fn.node) if isinstance(c_, ast.Call) and isinstance(c_.func, ast.Attribute) and c_.func.attr == 'serve_static_file']
+        if not sites8:
+            continue
+        if fn.key == f.key:
+            for c_ in sites8:
+                n8 += 1
+                ch.ok('C13.8', fn, c_, 'called from the confined static handler')
+            continue
+        g8 = cfg_of(fn, prog, exc_edges=False)
+        verdict8: Dict[int, Tuple[ast.Call, Optional[str]]] = {}
+        for p in fpaths(g8):
+            ch.paths += 1
+            sym8 = Sym(p)
+            for i_, nd_, lab_ in p.executed():
+                if nd_.ast is None or nd_.kind not in ('stmt', 'test'):
+                    continue
+                for c_ in walk_no_nested(nd_.ast):
+                    if any(c_ is s_ for s_ in sites8):
+                        v = sym8.value(c_.args[0], i_) if c_.args else ast.Constant(value=None)        # type: ignore[attr-defined]
+                        tainted = [norm(x)[:40] for x in ast.walk(v) if (isinstance(x, ast.Name) and x.id in fn.params[1:]) or
+                                   (isinstance(x, ast.Attribute) and x.attr in ('path', 'url', '_url', 'request', 'query', 'remainder') and attr_chain(x) not in ('os.path', 'posixpath.path', 'ntpath.path'))]
+                        prev = verdict8.get(id(c_), (c_, None))[1]
+                        verdict8[id(c_)] = (c_, prev or (('%s (from %s)' % (norm(v)[:70], tainted[0])) if tainted else None))    # type: ignore[assignment]
+        for c_, why in verdict8.values():
+            n8 += 1
+            ch.check(why is None, 'C13.8', fn, c_, 'a fixed file of the distribution (the path does not depend on the request)',
+                     '%s calls the file-serving sink itself with a path built from the request: %s is not subject to the containment test of the static handler, and because a route matched '
+                     'the confined fallback is never reached for these requests' % (fn.qualname, why))
+    if n8 == 0:
+        ch.bad('C13.8', f, 'serve_static_file', 'no call of serve_static_file found')
 
     # C13.1c / C13.4 serve_static_file
     sf = prog.method('HttpWebServerBasePlugin', 'serve_static_file')
